@@ -18,6 +18,7 @@
     C08_gd3_eleven_strings, C08_clocks_declared, C08_pcm_stream_in_block.
 -/
 import Ctrmml.Proofs.VgmInv
+import Ctrmml.Proofs.Utf8
 namespace Ctrmml.Vgm
 open Ctrmml Ctrmml.VgmSpec
 
@@ -244,6 +245,79 @@ example : ClockPoked mdPokes 0x2c := ⟨[], 7670454, _, rfl, by decide, by simp 
 example : ClockPoked mdPokes 0x0c := ⟨[(0x2c, le32 7670454)], 3579575, _, rfl, by decide, by simp [le16]⟩
 example : xsPcm 0 exXs = true := by decide
 example : loopD 0 none exXs = some 0 := by decide
+
+/-! ### GD3 text: the decoder of the writer against the reader-side encoder -/
+
+/-- utf8_decode_encode: the writer's UTF-8 → UTF-16 decoder inverts the reader-side encoder
+`utf8OfUnits` on EVERY list of 16-bit code units (`units16`, decidable): BMP values, surrogate
+pairs and — the decoder being as lenient as libstdc++ — even unpaired surrogates. -/
+theorem C08_utf8_decode_encode (us : List Nat) (h : units16 us = true) :
+    utf8ToUtf16 (utf8OfUnits us) = .ok us :=
+  decode_utf8OfUnits us (by
+    intro u hu
+    have := List.all_eq_true.mp h u hu
+    simpa using this)
+
+example : units16 [0x41, 0xD83D, 0xDE00, 0x3042, 0xDC00, 0xD800] = true := by decide
+example : utf8OfUnits [0x41, 0xD83D, 0xDE00, 0x3042] = [0x41, 0xf0, 0x9f, 0x98, 0x80, 0xe3, 0x81, 0x82] := by decide
+
+/-- utf8_valid_tag: every well-formed UTF-8 string (`validUtf8`, Unicode table 3-7) is the UTF-8
+form of a list `cps` of Unicode scalar values; the decoder succeeds on it, yields exactly the
+UTF-16 forms of those scalar values — a well-formed UTF-16 string (`wfUtf16`, decidable) — and
+the string read back (UTF-16 → scalar values, UTF-16 → UTF-8) is the original. -/
+theorem C08_utf8_valid_tag (b : Bytes) (h : validUtf8 b = true) :
+    ∃ cps us, (∀ cp ∈ cps, isScalar cp = true) ∧ b = utf8OfScalars cps ∧ utf8ToUtf16 b = .ok us ∧
+      us = cps.flatMap utf16OfScalar ∧ wfUtf16 us = true ∧ scalarsOfUnits us = cps ∧ utf8OfUnits us = b := by
+  obtain ⟨cps, hs, rfl⟩ := validAs_of_valid b h
+  have hlt : ∀ cp ∈ cps, cp < 0x110000 := fun cp hc => ((isScalar_iff cp).mp (hs cp hc)).1
+  refine ⟨cps, _, hs, rfl, decode_utf8OfScalars cps hlt, rfl, wfUtf16_utf16 cps hs, scalarsOfUnits_utf16 cps hs, ?_⟩
+  rw [utf8OfUnits_eq, scalarsOfUnits_utf16 cps hs]
+
+example : validUtf8 [0x41, 0xf0, 0x9f, 0x98, 0x80, 0xe3, 0x81, 0x82, 0xc3, 0xa9] = true := by decide
+
+/-- utf8_decoder_scalars (converse direction, for EVERY byte string the decoder accepts, not
+only well-formed ones): the bytes are the UTF-8 forms of code points `cps` (each below
+0x110000; 3-byte encoded surrogates are let through) followed by an incomplete sequence of at
+most 3 bytes that is dropped; the code units are exactly the UTF-16 forms of `cps`, all 16-bit.
+If no code point is a surrogate, the UTF-16 string decodes back to exactly `cps` and re-encodes
+to exactly the accepted bytes. -/
+theorem C08_utf8_decoder_scalars (b : Bytes) (us : List Nat) (h : utf8ToUtf16 b = .ok us) :
+    ∃ cps tail, b = utf8OfScalars cps ++ tail ∧ tail.length ≤ 3 ∧ utf8ToUtf16 tail = .ok [] ∧
+      us = cps.flatMap utf16OfScalar ∧ (∀ cp ∈ cps, cp < 0x110000) ∧
+      ((∀ cp ∈ cps, isScalar cp = true) → scalarsOfUnits us = cps ∧ utf8OfUnits us = utf8OfScalars cps) := by
+  obtain ⟨cps, tail, h1, h2, h3, h4, h5⟩ := decodedAs_of_decode b us h
+  refine ⟨cps, tail, h1, h2, h3, h4, h5, fun hs => ?_⟩
+  rw [h4, utf8OfUnits_eq, scalarsOfUnits_utf16 cps hs]
+  exact ⟨rfl, rfl⟩
+
+example : utf8ToUtf16 [0x41, 0xe3, 0x81] = .ok [0x41] := rfl
+example : utf8ToUtf16 [0xed, 0xa0, 0x80] = .ok [0xD800] := rfl
+
+/-- gd3_renders_tag: for every tag whose C string is well-formed UTF-8, `add_gd3` succeeds and
+the stored code units render the tag in the reader's sense (`rendersTag`, the definition the
+spec oracle applies to real files): re-encoded to UTF-8 they ARE the tag, or — when the tag has
+more than 256 code units — they are exactly 256 units whose UTF-8 form (minus a high surrogate
+cut off at the cap) is a prefix of the tag. -/
+theorem C08_gd3_renders_tag (t : Bytes) (h : validUtf8 (cstr t) = true) :
+    Decodable t ∧ rendersTag gd3MaxUnits (gd3Units t) (cstr t) = true := by
+  obtain ⟨cps, us, hs, hb, hd, hus, _, _, hre⟩ := C08_utf8_valid_tag (cstr t) h
+  refine ⟨⟨us, hd⟩, ?_⟩
+  unfold gd3Units
+  rw [hd]
+  simp only []
+  unfold rendersTag
+  by_cases hl : us.length ≤ gd3MaxUnits
+  · rw [List.take_of_length_le hl, hre]; simp
+  · split
+    · rfl
+    · have hlen : (us.take gd3MaxUnits).length = gd3MaxUnits := by rw [List.length_take]; omega
+      rw [if_pos (by simp [hlen])]
+      have := take_prefix cps hs gd3MaxUnits
+      rw [← hus, ← hb] at this
+      simp only [List.isPrefixOf_iff_prefix]
+      exact this
+
+example : validUtf8 (cstr exTags.system) = true := by decide
 
 /-- Every clause of DESIGN §6 C08 is a theorem above; nothing is left to this statement.  (It
 is kept, trivially true, so that the audit shows the full statement shrank to nothing.)  Not
